@@ -256,7 +256,10 @@ func (d *c18Diff) run(in c18Input, prep, ansi bool) {
 	meta := d.meta
 	res := c18Parse(in.Src, prep, ansi)
 	meta.Evaluations++
-	c := map[string]interface{}{"kind": "parse", "origin": in.Origin, "src": in.Src, "runes": fmt.Sprintf("%U", []rune(in.Src)), "prepared": prep, "ansi_quotes": ansi}
+	c := map[string]interface{}{"kind": "parse", "origin": in.Origin, "src": in.Src, "prepared": prep, "ansi_quotes": ansi}
+	if c18NeedsRunes(in.Src) {
+		c["runes"] = fmt.Sprintf("%U", []rune(in.Src))
+	}
 	switch {
 	case res.timeout:
 		meta.Distribution["parse:timeout"]++
